@@ -375,3 +375,17 @@ func Explore(bound, horizon, maxExecs int, body func(s *Scheduler), check func(x
 	rec(nil)
 	return st
 }
+
+// RunLength returns how many scheduling points in a row the running thread
+// has passed without any other thread being chosen.
+func (s *Scheduler) RunLength() int {
+	n := 0
+	for i := len(s.Steps) - 1; i >= 0; i-- {
+		st := s.Steps[i]
+		if st.Running != s.cur || st.Enabled[st.Chosen] != s.cur {
+			break
+		}
+		n++
+	}
+	return n
+}
